@@ -19,7 +19,7 @@
      * numpy fancy assignment  s[idx] = x  is [assign] (position k of idx receives x[k]).
    No proofs in this file. *)
 From Coq Require Import ZArith List Bool QArith Qabs.
-From PAV Require Import Base.Res Base.Check Base.NumOps Base.Sum.
+From PAV Require Import Base.Res Base.Check Base.NumOps Base.Sum Model.C05Chol.
 Import ListNotations.
 
 Section Model.
@@ -350,7 +350,10 @@ Inductive case :=
 (* the same observation, but a floating-point decision of the solver lies on (or within 1e-6 of) a tie -- exactly symmetric or
    degenerate systems --, so that the model's and the implementation's tie-breaks may legitimately differ: the comparison with the
    model is waived, the specification is still evaluated on the implementation's output (it must hold whatever tie-break was used) *)
-| KSpec (k : case).
+| KSpec (k : case)
+(* one call of cholinsertlast / choldeleteindexes made by fnnls_cholesky during a run (Model/C05Chol.v): model output vs implementation
+   output, and the contract U'^T U' = bordered / deleted Gram matrix evaluated on the implementation's output *)
+| KChol (c : ccase).
 
 Definition strip (r : res (@vec QOps * exit_kind * list bool)) : res qv :=
   match r with Ok (d, _, _) => Ok d | Raise e => Raise e end.
@@ -358,6 +361,7 @@ Definition strip (r : res (@vec QOps * exit_kind * list bool)) : res qv :=
 Fixpoint agree (k : case) : bool :=
   match k with
   | KSpec _ => true
+  | KChol c => cagree c
   | KFnnls A b eps pinit out => res_eqb qv_close out (strip (@fnnls QOps FUEL A b eps pinit))
   | KPosOnly A b eps uses_p out => res_eqb qv_close out (@reconstruction_positive_only QOps FUEL A b eps uses_p)
   | KPosNeg A b ranges chk out => res_eqb qv_close out (@reconstruction_positive_negative QOps A b ranges chk)
@@ -387,6 +391,7 @@ Definition is_inv_exn {A} (r : res A) : bool := match r with Raise InversionExce
 Fixpoint spec_ok (k : case) : bool :=
   match k with
   | KSpec k' => spec_ok k'
+  | KChol c => cspec_ok c
   | KFnnls A b eps pinit out =>
       match out with Ok d => @kkt_ok QOps A b d (tol_of b) | Raise _ => false end
   | KPosOnly A b eps uses_p out =>
